@@ -833,6 +833,32 @@ def fam_climate(ctx):
                         return net.n_links
                     yield (f"{cname}.__init__|T={T},N={N},cycle={cyc},"
                            f"{list(kw)[0]}", t)
+    # public methods that take the caller's own anomaly array (any shape
+    # and dtype a caller may pass, including no samples / no nodes)
+    def net_of(cname):
+        cd = climate_data(r.gamma(2.0, 1.0, (12, 4)), np.linspace(-60, 60, 4),
+                          np.linspace(0, 300, 4), cycle=1)
+        extra = {"winter_only": False} if cname != "HavlinClimateNetwork" \
+            else {}
+        return getattr(C, cname)(cd, threshold=0.3, silence_level=3, **extra)
+    shapes = [(0, 3), (0, 0), (1, 3), (2, 3), (5, 0), (5, 1), (1, 1),
+              (7, 5), (3, 9)]
+    for (T, N), dt in itertools.product(shapes, ("f8", "f4", "i8")):
+        an = (r.normal(size=(T, N)) * 3).astype(dt)
+        for cname, meth, kw in (
+                ("MutualInfoClimateNetwork", "mutual_information",
+                 {"dump": False}),
+                ("MutualInfoClimateNetwork", "calculate_similarity_measure",
+                 {}),
+                ("TsonisClimateNetwork", "calculate_similarity_measure", {}),
+                ("SpearmanClimateNetwork", "calculate_similarity_measure",
+                 {}),
+                ("SpearmanClimateNetwork", "rank_time_series", {})):
+            def t(cname=cname, meth=meth, kw=kw, an=an):
+                net = net_of(cname)
+                out = getattr(net, meth)(an.copy(), **kw)
+                return np.shape(out)
+            yield (f"{cname}.{meth}|caller-array,T={T},N={N},{dt}", t)
     # Rainfall helpers with masks
     for T, N in itertools.product((1, 2, 5, 10, 17), (1, 2, 6, 11)):
         obs = r.gamma(1.0, 1.0, (T, N)) * (r.random((T, N)) < 0.7)
